@@ -26,7 +26,7 @@ func (m *Manager) SyncLoop(ctx context.Context, errCh chan<- error) {
 	// stop) are applied right away: every event that could trigger them has already been seen
 	// and would be dropped, so nothing else would apply them until a new block arrives.
 	if err := m.trySyncNextBlock(ctx, m.daHeight.Load()); err != nil {
-		errCh <- fmt.Errorf("failed to sync next block: %w", err)
+		m.reportLoopError(ctx, errCh, fmt.Errorf("failed to sync next block: %w", err))
 		return
 	}
 
@@ -68,7 +68,7 @@ func (m *Manager) SyncLoop(ctx context.Context, errCh chan<- error) {
 			m.handleEmptyDataHash(ctx, &header.Header)
 
 			if err = m.trySyncNextBlock(ctx, daHeight); err != nil {
-				errCh <- fmt.Errorf("failed to sync next block: %w", err)
+				m.reportLoopError(ctx, errCh, fmt.Errorf("failed to sync next block: %w", err))
 				return
 			}
 
@@ -109,7 +109,7 @@ func (m *Manager) SyncLoop(ctx context.Context, errCh chan<- error) {
 
 			err = m.trySyncNextBlock(ctx, daHeight)
 			if err != nil {
-				errCh <- fmt.Errorf("failed to sync next block: %w", err)
+				m.reportLoopError(ctx, errCh, fmt.Errorf("failed to sync next block: %w", err))
 				return
 			}
 			m.dataCache.SetSeen(dataHash)
